@@ -24,6 +24,8 @@ TRUSTED = [
     "impl models hand-transcribed from cencoding.c / speedups.c (C11 trusted base)",
     "Python glue: case generators, exact-size buffers, report classification (AddressSanitizer / runtime error / signal)",
     "covered: the codec routines (C11 lattice). The thrift serialiser (C10) and the list assembler (C15) are checked by their own properties",
+    "translators/dispatch2coq.py + Impl/Dispatch.v (C11 trusted base): the callers' allocation (np.empty(n, dtype)) and the itemsize they pass are "
+    "read off the source by call shape; the observed-call correspondence and the page readers run under ASan are the tie",
 ]
 
 
@@ -41,6 +43,11 @@ def run(ctx):
         ctx.obligation("compiled code corresponds to the .pyx source (DESIGN 4.5)", not diffs,
                        "source and compiled code differ; the property is shown for the compiled code only: %r" % (diffs[:5],))
         C.shadow(sanitize=True)
+        # the callers' allocation arithmetic: the (bit width, selfmade) chains of the page readers regenerated as Gallina and
+        # proved adequate (allocation item size = itemsize argument, item holds the width) on every run; C12_caller_allocation_fits
+        # turns adequacy into "the decoder writes at most the bytes the caller allocated"
+        from harness import codec_dispatch as D
+        mode, K.DISPATCH_TAB = D.translate_dispatch(ctx)
         ctx.rule = ("the C11 lattice thinned to the boundary points (widths {0,1,3,8,9,16,23,24,25,26,31,32}, delta widths "
                     "{0,1,8,24,28,29,32,33,56,57,63,64}, patterns ones/random, capacities 0 / count-1 / count / count+1 items), every input "
                     "and output buffer an exactly-sized heap allocation, no byte behind the encoded run; trivial = nothing to decode; "
